@@ -48,6 +48,14 @@ class World:
     def stat(self, key, n=1):
         self.stats[key] = self.stats.get(key, 0) + n
 
+    def current_proc(self):
+        """Identity of the simulated operating-system process that is running."""
+        s = self.sched
+        if s is not None and s.in_task():
+            t = s.current
+            return (t.group.gid, t.ctx.get("proc", 0))
+        return ("outside", 0)
+
     def current_group(self):
         s = self.sched
         if s is not None and s.in_task():
@@ -70,7 +78,7 @@ def _audit(event, args):
                 p = p.decode("utf8", "replace")
             if p.startswith(w.root):
                 w.audit_counts["open"] = w.audit_counts.get("open", 0) + 1
-    elif event in ("os.remove", "os.mkdir", "os.rename"):
+    elif event in ("os.remove", "os.mkdir", "os.rename"):  # os.replace raises os.rename too
         p = args[0]
         try:
             p = os.fspath(p)
@@ -288,6 +296,32 @@ class SimPath(pathlib.PosixPath):
         WORLD.seam("mkdir", self)
         return super().mkdir(*a, **k)
 
+    def is_file(self, **k):
+        WORLD.point("stat", _base(self))
+        return super().is_file(**k)
+
+    def unlink(self, missing_ok=False):
+        WORLD.point("unlink", _base(self))
+        WORLD.seam("remove", self)
+        return super().unlink(missing_ok=missing_ok)
+
+    def rename(self, target):
+        WORLD.point("rename", f"{_base(self)}->{_base(target)}")
+        WORLD.seam("rename", self)
+        return super().rename(target)
+
+    def replace(self, target):
+        WORLD.point("replace", f"{_base(self)}->{_base(target)}")
+        WORLD.seam("rename", self)
+        return super().replace(target)
+
+    def open(self, mode="r", buffering=-1, encoding=None, errors=None, newline=None):
+        return sim_open(self, mode, buffering, encoding, errors, newline)
+
+    def touch(self, mode=0o666, exist_ok=True):
+        f = sim_open(self, "a")
+        f.close()
+
 
 class OsProxy:
     def __getattr__(self, name):
@@ -299,6 +333,35 @@ class OsProxy:
         return os.remove(path, *a, **k)
 
     unlink = remove
+
+    def _two(self, name, src, dst, *a, **k):
+        WORLD.point(name, f"{_base(src)}->{_base(dst)}")
+        WORLD.seam("rename", src)
+        return getattr(os, name)(src, dst, *a, **k)
+
+    def rename(self, src, dst, *a, **k):
+        return self._two("rename", src, dst, *a, **k)
+
+    def replace(self, src, dst, *a, **k):
+        return self._two("replace", src, dst, *a, **k)
+
+    def mkdir(self, path, *a, **k):
+        WORLD.point("mkdir", _base(path))
+        WORLD.seam("mkdir", path)
+        return os.mkdir(path, *a, **k)
+
+    def makedirs(self, path, *a, **k):
+        WORLD.point("mkdir", _base(path))
+        armed = WORLD.armed
+        WORLD.armed = False  # makedirs issues a variable number of mkdir calls
+        try:
+            return os.makedirs(path, *a, **k)
+        finally:
+            WORLD.armed = armed
+
+    def truncate(self, path, length):
+        WORLD.point("truncate", _base(path))
+        return os.truncate(path, length)
 
 
 class AtexitProxy:
@@ -444,6 +507,7 @@ class SimPool:
     def __init__(self, processes=None, initializer=None, initargs=(), maxtasksperchild=None, context=None):
         self._workers = processes or WORLD.pool_workers
         self._closed = False
+        self._creator = WORLD.current_proc()
         WORLD.stat("pool_created")
 
     # context manager / lifecycle
@@ -468,6 +532,16 @@ class SimPool:
         w = WORLD
         if self._closed:
             raise ValueError("Pool not running")
+        if w.current_proc() != self._creator:
+            # a pool inherited through fork: the child's copy is in state RUN but its handler
+            # threads did not survive the fork, so a submitted batch is never picked up and
+            # .get() waits forever
+            w.stat("pool_used_across_fork")
+            s = w.sched
+            if s is None or not s.in_task():
+                raise HarnessError("pool used across processes outside the simulation")
+            while True:
+                s.block(("inherited_pool", id(self)))
         items = list(items)
         n = len(items)
         if w.pool_mode == "serial" or w.pool_rng is None:
